@@ -1,13 +1,15 @@
-use std::io::Write;
+use std::io::{Error, ErrorKind, Write};
 
 pub struct Lpt1Write {}
 
+// TODO implement LPT1 for the supported platforms
 impl Write for Lpt1Write {
     fn write(&mut self, _buf: &[u8]) -> std::io::Result<usize> {
-        unimplemented!()
+        // the printer is not available, which is a device error for the program
+        Err(Error::new(ErrorKind::Unsupported, "LPT1 is not available"))
     }
 
     fn flush(&mut self) -> std::io::Result<()> {
-        unimplemented!()
+        Ok(())
     }
 }
